@@ -59,6 +59,7 @@ def jobs(tier):
         js.append(Job("scanline.linear.coincident." + name, "C13/linear_degenerate.c", defines={"VC_REPEAT": code}, kind="bounded",
                       bound="fixed degenerate case: p1 == p2 == (3.5,-2.0), no transform, 2 fixed stops, width <= 2",
                       unwind=6, cbmc_flags=["--conversion-check", "--float-div-by-zero-check"], timeout=600, min_props=100,
+                      extra_sources=["repo:pixman/pixman-matrix.c"],     # pixman_transform_point_3d (unreachable: no transform; needed to link the replay)
                       functions=["linear_get_scanline", "_pixman_gradient_walker_fill_narrow", "gradient_walker_reset"],
                       domain="any pixel position 0..32767, width 0..2, repeat " + name,
                       assumptions=["scanline.linear.*: pixel position non-negative (conversion-check cannot be limited to double->int and "
